@@ -35,7 +35,13 @@ VP_INLINE TripWireDetector make_detector(int which)
 // owner: creates a trigger on line 0, moves it around (symbolic), writes data, destroys it
 void vp_owner()
 {
-    int mv = vp_nondet_range(0, 2);
+#ifdef MV
+    int mv = MV;
+#else
+    int mv = vp_nondet_range(0, 3);
+#endif
+    bool moved_assign = false;
+    bool l1_before = false;
     {
 #if LINEKIND == 1
         TripWireTrigger t(*g_line0);
@@ -51,26 +57,52 @@ void vp_owner()
             vp_gset(G_DTOR_BEGUN, 1);
             // t2 dies here and trips the line; afterwards the moved-from t dies: must be safe and trip nothing new
         } else if (mv == 2) {
+            {
 #if LINEKIND == 1
-            TripWireTrigger t3(*g_line1);           // trigger on the other line
+                TripWireTrigger t3(*g_line1);       // trigger on the other line
 #elif LINEKIND == 3
-            TripWireTrigger t3(1u);
+                TripWireTrigger t3(1u);
 #else
-            TripWireTrigger t3;
+                TripWireTrigger t3;
 #endif
+                vp_gset(G_DATA, 42);
+                vp_hb_data_write(0);
+                vp_gset(G_DTOR_BEGUN, 1);
+#if LINEKIND != 2
+                vp_gset(2, 1);                      // t3 gives up line 1 now: whatever that does to line 1 happens from here on
+#endif
+                t3 = std::move(t);                  // move-assign: t3 now carries line 0's duty
+            }                                       // t3 dies: trips line 0
+#if LINEKIND != 2
+            l1_before = make_detector(1).isTripped();
+            moved_assign = true;
+#endif
+        } else if (mv == 3) {
+            // the moved-from object dies FIRST, while the new owner is still alive: the line must stay untripped
+#if LINEKIND == 1
+            TripWireTrigger* th = new TripWireTrigger(*g_line1);
+#elif LINEKIND == 3
+            TripWireTrigger* th = new TripWireTrigger(1u);
+#else
+            TripWireTrigger* th = nullptr;
+#endif
+            if (th != nullptr) {
+                TripWireTrigger t4(std::move(*th));
+                delete th;                          // moved-from: safe, trips nothing
+                vp_assert(!make_detector(1).isTripped(), 1906);
+                vp_gset(2, 1);
+            }                                       // t4 dies: now line 1 trips
             vp_gset(G_DATA, 42);
             vp_hb_data_write(0);
             vp_gset(G_DTOR_BEGUN, 1);
-#if LINEKIND != 2
-            vp_gset(2, 1);                          // line 1 may trip from now on (t3 dies at scope exit / is assigned over)
-#endif
-            t3 = std::move(t);                      // move-assign: t3 now carries line 0's duty
         } else {
             vp_gset(G_DATA, 42);
             vp_hb_data_write(0);
             vp_gset(G_DTOR_BEGUN, 1);
         }
-    }
+    }                                               // t dies (moved-from in the mv 1 / 2 cases)
+    // the moved-from source of a move-assignment was destroyed just now: it must not have tripped anything
+    if (moved_assign) vp_assert(make_detector(1).isTripped() == l1_before, 1907);
     vp_cover(0);
 }
 // detector on line 0: false until a live trigger's destructor has begun; once true, true forever; sees the data
